@@ -109,7 +109,7 @@ def make_handler(cap, executed, use_callback, s1_fails, s3_retry=False):
 
 def drive(ci, cc, psel, use_callback, s1_fails, s3_retry=False):
     """run the execution; returns per invocation: (completed-at-start op names, executed sites, emitted records)"""
-    be = Backend(page_size=[None, 1, 2, 3][psel])
+    be = Backend(page_size=[None, 1, 2, 3][psel], empty_pages=(psel == 1))   # page size 1: empty pages with markers, incl. an empty FIRST page on re-invocations
     be.callback_outcome["W"] = ("SUCCEEDED", "x")
     if ci > 0:
         be.crash_call = (ci, cc, "after")
@@ -186,6 +186,76 @@ for _p in range(4):
     _f = _mk(_p)
     globals()[_f.__name__] = _f
 del _f, _p
+
+
+
+# ---------------------------------------------------------------- histories WITHOUT any completed operation, and an empty first page in the FIRST invocation
+O_OP_POS = {"W": 1, "F": 9}   # the callback operation sits where it is created (that is where the SDK visits it); result() is not an operation of its own
+O_LOG_POS = {"L0": 0, "L1": 2, "L2": 6, "in-F": 8, "L3": 10}
+
+
+@h.lemma(timeout=300, funcs=FUNCS, reach=("end", "resumed", "outstanding_only"),
+         bounds="program L0; create_callback W; L1; W.result(); L2; step F{log}; L3; optional process crash after API call 1..2 of invocation 1 (leaves a history whose only "
+                "operation is an OUTSTANDING callback: nothing completed, so nothing is being replayed); history inline / page size 1 with empty pages, where the FIRST "
+                "invocation's payload may also be an empty first page")
+def replay_logging_outstanding_first(ci: int, cc: int, paged: bool, empty_first: bool):
+    """
+    pre: 0 <= ci <= 1 and 1 <= cc <= 2
+    post: True
+    """
+    be = Backend(page_size=1 if paged else None, empty_pages=paged)
+    if paged and empty_first:
+        be.empty_first_from = 1
+    be.callback_outcome["W"] = ("SUCCEEDED", "x")
+    be.advance_after_crash = False
+    if ci > 0:
+        be.crash_call = (ci, cc, "after")
+    per_inv = []
+    state = {}
+
+    def on_inv(i):
+        done = {op.name for op in be.ops.values() if op.status in TERMINAL}
+        if be.ops and not done:
+            h.reach("outstanding_only")
+        state["cur"] = (done, [], Cap())
+        per_inv.append(state["cur"])
+
+    def handler(event, ctx):
+        cap = state["cur"][2]
+        ctx.set_logger(cap)
+
+        def log(lg, site):
+            state["cur"][1].append(site)
+            lg.info(site)
+
+        log(ctx.logger, "L0")
+        cb = ctx.create_callback(name="W")
+        log(ctx.logger, "L1")
+        cb.result()
+        log(ctx.logger, "L2")
+
+        def f(sc):
+            log(sc.logger, "in-F")
+            return 1
+        ctx.step(f, name="F")
+        log(ctx.logger, "L3")
+        return 1
+
+    res = run_execution(handler, be, max_invocations=6, on_invocation=on_inv)
+    h.check(res.deadlock is None and res.final is not None and res.final["Status"] == "SUCCEEDED", "execution did not finish")
+    if len(per_inv) >= 2:
+        h.reach("resumed")
+    done0, ex0, cap0 = per_inv[0]
+    h.check([m for (m, _x) in cap0.records] == ex0, "in a first invocation every log call must be emitted")
+    for (done, executed, cap) in per_inv:
+        emitted = [m for (m, _x) in cap.records]
+        last_done = max([O_OP_POS[n] for n in done if n in O_OP_POS], default=-1)
+        for site in executed:
+            if O_LOG_POS[site] > last_done:
+                h.check(site in emitted, "a log call that precedes no previously-completed operation was swallowed")
+            else:
+                h.check(site not in emitted, "a log call in code an earlier invocation already ran was emitted again")
+    h.end()
 
 
 # ------------------------------------------------------------------------------------------------ programs with map / parallel blocks (treated as units)
